@@ -49,39 +49,6 @@ impl Run {
 //!end
 }
 
-// ---- Checkpoint::save: BufWriter -> zstd encoder -> file (ASSUMED library behaviour; each stub states what it is taken to do) ----
-pub uninterp spec fn zstd_frame(b: Seq<u8>) -> Seq<u8>;        // the complete zstd stream an encoder emits for input b (level fixed)
-pub mod iow {
-    use vstd::prelude::*;
-    use super::*;
-    pub struct BufWriter { pub f: fs::File }
-    // BufWriter::new does no I/O
-    impl BufWriter { #[verifier::external_body] pub fn new(f: fs::File) -> (r: BufWriter) ensures r.f == f { unimplemented!() } }
-}
-pub mod zstdw {
-    use vstd::prelude::*;
-    use super::*;
-    pub struct Encoder { pub bw: iow::BufWriter, pub ghost input: Seq<u8> }
-    impl Encoder {
-        // Encoder::new writes nothing yet (ASSUMED: the frame header is buffered until the first flush, which here is finish())
-        #[verifier::external_body] pub fn new(bw: iow::BufWriter, level: i32) -> (r: Result<Encoder, std::io::Error>)
-            ensures r matches Ok(e) ==> e.bw == bw && e.input == Seq::<u8>::empty() { unimplemented!() }
-        // finish(): the complete stream for everything written so far goes to the file AT ITS OFFSET (nothing is truncated here);
-        // on failure some prefix of it may have been written
-        #[verifier::external_body] pub fn finish(self, Tracked(w): Tracked<&mut World>) -> (r: Result<iow::BufWriter, std::io::Error>)
-            requires recoverable(*old(w)), old(w).fs.dom().contains(self.bw.f.p), 0 <= self.bw.f.pos <= old(w).fs[self.bw.f.p].len(),
-            ensures
-                final(w).ptr == old(w).ptr, final(w).last == old(w).last, final(w).ptr_new == old(w).ptr_new,
-                final(w).fs.dom() == old(w).fs.dom(), forall|q: Seq<char>| q != self.bw.f.p ==> final(w).fs[q] == old(w).fs[q],
-                r is Ok ==> final(w).fs[self.bw.f.p] == fs::overwrite(old(w).fs[self.bw.f.p], self.bw.f.pos, zstd_frame(self.input)) && final(w).io_faults == old(w).io_faults,
-                r is Err ==> final(w).io_faults == old(w).io_faults + 1,
-        { unimplemented!() }
-    }
-}
-// serde_json::to_writer into the encoder: the encoder's input grows by the JSON text of the value; no file I/O yet
-#[verifier::external_body] pub fn to_writer_enc<T>(e: &mut zstdw::Encoder, v: &T) -> (r: Result<(), serde_json::Error>)
-    ensures final(e).bw == old(e).bw, r is Ok ==> final(e).input == old(e).input + json_enc(*v) { unimplemented!() }
-
 //!type src/core/tracking.rs Checkpoint
 pub struct Checkpoint {
     pub path: path::PathBuf,
